@@ -112,6 +112,10 @@ func vSchedExplore(maxDeviations int) {}
 func vNumCPU(n int)       {}
 func vAllowCrash(on bool) {}
 
+// vRaceDetect: from now on the engine checks every memory access of the code under test for happens-before
+// data races between goroutines (natively a no-op; counterexamples are replayed with the race detector).
+func vRaceDetect() {}
+
 // vFile creates an input file (or reserves an output path) and returns the path to pass on the command
 // line; vReadFile returns a file's content. Under symgo the files live in the engine's in-memory file system.
 var vTmpDir string
@@ -383,6 +387,12 @@ func init() {
 			n := int(ip.concInt(a[0]))
 			ip.scheduler().explore = n > 0
 			ip.scheduler().maxDev = n
+			return nil
+		},
+		"vRaceDetect": func(ip *Interp, fn *ssa.Function, a []Value) Value {
+			if ip.p.params["RACE"] == 1 {
+				ip.raceEnable(fn)
+			}
 			return nil
 		},
 		"vAllowCrash": func(ip *Interp, fn *ssa.Function, a []Value) Value {
